@@ -70,7 +70,7 @@ class C10(UdpCheck):
                     break
                 r = rng.random()
                 if not alive:
-                    plan.append({"op": "connect", "c": c, "t": round(t, 4), "cb": rng.random() < 0.5})
+                    plan.append({"op": "connect", "c": c, "t": round(t, 4), "cb": rng.random() < 0.5, "reuse": rng.random() < 0.4})
                     alive = True
                 elif r < 0.05:
                     plan.append({"op": "rechallenge", "c": c, "t": round(t, 4)})
@@ -92,7 +92,7 @@ class C10(UdpCheck):
                 elif r < 0.85:
                     plan.append({"op": "stall", "c": c, "t": round(t, 4), "d": rng.choice([0.2, 1.0, T + 1.0])})
                 else:
-                    plan.append({"op": "connect", "c": c, "t": round(t, 4), "cb": rng.random() < 0.5})  # reconnect without disconnect
+                    plan.append({"op": "connect", "c": c, "t": round(t, 4), "cb": rng.random() < 0.5, "reuse": rng.random() < 0.4})  # reconnect without disconnect
         for j in range(rng.choice([0, 0, 1, 2])):
             plan.append({"op": "sdisconnect", "c": rng.randrange(n), "t": round(1.0 + rng.random() * (dur - 2), 4)})
         for j in range(rng.choice([0, 1, 3])):
@@ -118,9 +118,16 @@ class C10(UdpCheck):
             cfg["phases"].append({"t0": 0.0, "t1": dur, "loss": rng.choice([0.02, 0.1]), "dup": rng.choice([0.0, 0.05, 0.2])})
         for j in range(rng.choice([0, 0, 2, 5])):
             c = rng.randrange(n)
-            if rng.random() < 0.5:
+            r = rng.random()
+            if r < 0.35:
                 plan.append({"op": "replay", "global": True, "t": round(rng.random() * dur, 4), "link": "c%d>S" % c,
                              "back": rng.choice([0, 1, 3, 40, 200]), "times": rng.choice([1, 2])})
+            elif r < 0.65:
+                # CRC-only forgeries in the client's name (any header type, fresh sequence numbers): an application message,
+                # a disconnect - the handler must never hear of them
+                plan.append({"op": "forge", "global": True, "t": round(rng.random() * dur, 4), "frm": "c%d" % c, "to": "S",
+                             "type": rng.choice([1, 2, 3, 5, 6]), "inner": rng.choice([[6], [5], [6, 5], [6, 6, 5], [1, 6], [2, 6, 5]]),
+                             "seq_off": rng.choice([1, 1, 2, 10])})
             else:
                 plan.append({"op": "garbage", "global": True, "t": round(rng.random() * dur, 4), "frm": "c%d" % c, "to": "S",
                              "kind": rng.choice(["random", "magic", "header"]), "n": j})
